@@ -424,11 +424,8 @@ _MIRROR = {"<": ">", "<=": ">=", ">": "<", ">=": "<=", "==": "==", "!=": "!="}
 
 
 def _is_const_text(t: str) -> bool:
-    try:
-        ast.literal_eval(t)
-        return True
-    except Exception:
-        return False
+    from .normal import is_const_text
+    return is_const_text(t)
 
 
 def canonical_atom(lhs: str, op: str, rhs: str) -> tuple:
@@ -438,6 +435,10 @@ def canonical_atom(lhs: str, op: str, rhs: str) -> tuple:
         lc, rc = _is_const_text(lhs), _is_const_text(rhs)
         if (lc and not rc) or (not lc and not rc and op in ("<", "<=")):
             return (rhs, _MIRROR[op], lhs)
+        if op in ("==", "!=") and not lc and not rc:
+            from .normal import eq_rank
+            if eq_rank(lhs) > eq_rank(rhs):
+                return (rhs, op, lhs)
     return (lhs, op, rhs)
 
 
